@@ -64,6 +64,17 @@ type MapV struct {
 	keyT  types.Type
 	valT  types.Type
 	alive []bool
+	// race detection (maps created by the code under test, scheduled harnesses only): the last write and the
+	// last read per goroutine, each with the goroutine's synchronisation epoch at that moment
+	tracked bool
+	lastW   *mapAccess
+	lastR   map[int]*mapAccess
+}
+
+type mapAccess struct {
+	g     *Goroutine
+	epoch int
+	where string
 }
 
 type UnsafePtr struct{ V Value }
